@@ -2,7 +2,13 @@
 
    case  := feat_ws feat_quic en_tcp en_ws en_quic local_peer max_out(0 = none, m+1) ops:[op]
    maddr := n (tag arg)*n        tag 0 ip4 / 1 ip6 (arg = class*65536+id), 2 dns, 3 dns4, 4 dns6,
-                                 5 tcp, 6 udp, 7 ws, 8 wss, 9 quic-v1, 10 p2p, 11 other
+                                 5 tcp, 6 udp, 7 ws, 8 wss, 9 quic-v1, 10 p2p, 11 other,
+                                 12 a concrete IPv4 address (arg = the 32-bit address), 13 a concrete
+                                 IPv6 address s0:s1:0:..:val:..:0 (arg = ((s0*65536+s1)*8+pos)*65536+val,
+                                 val in segment pos of 2..7); their class is computed by IpClass.v.
+                                 Addresses of the ranges that tags 0 / 1 are mapped to (0.0.0.0,
+                                 127.1/16, 10.7/16, 8.8/16, ::, ::1, fd00::7:x, 2001:4860::x) are
+                                 written with tags 0 / 1 only
    op    := 0 peer [maddr] order:[maddr] victims:[maddr]   add_known_address
           | 1 maddr kind victim:[maddr]            update_address_on_dial_failure; kind = the code of the
                                                    DialError variant: outer + 4 * inner + 64 * innermost
@@ -16,15 +22,32 @@
           | 6 n                                    hold n established outbound connections
           | 7 peer outcome tcp:[maddr] ws:[maddr]  dial(peer) with the lists given to open(); failed attempts time out
           | 9 peer outcome errs:[kind] tcp:[maddr] ws:[maddr]   the same, attempt i failing with errs[i mod |errs|]
+          | 14 peer outcome errs:[kind] tcp:[maddr] ws:[maddr] quic:[maddr]   the same with a QUIC transport
           | 8 peer maddr score victim:[maddr]      AddressStore::insert with a raw i32 score (biased by 2^31)
           | 10 maddr res victims:[maddr]           dial_address; res 0 = connection established, k+1 = DialFailure of kind k
           | 11 maddr                               PublicAddresses::add_address
           | 12 maddr                               PublicAddresses::remove_address
-   ([x] is a count-prefixed list.) The harness build has the websocket feature compiled in
-   and quic compiled out; cases with other feature flags are not well-formed. *)
+          | 15 maddr victims:[maddr]               dial_address when the transport's dial() returns an error
+          | 13 peer [maddr] order:[maddr] victims:[maddr]  TransportService::add_known_address: the service
+                                                   appends /p2p/<peer> to every address that does not end in
+                                                   a peer id and hands the set to the manager's handle (op 0
+                                                   on the prepared addresses)
+   ([x] is a count-prefixed list.) The main harness build has the websocket feature compiled in
+   and quic compiled out (feat_quic = 0); the second build (stream `aux`, cargo feature quic) runs
+   the cases with feat_quic = 1, where a probe also reports QuicListener::get_socket_address and
+   dial(peer) episodes carry three lists (tag 14).
+
+   Litep2p-level case (first number 2):  2 nk <case as above>
+   whose operations are: nk add_known_address operations (Litep2pConfig::known_addresses, in order),
+   then register_listen_address operations (the listen addresses of the configured TCP / WebSocket
+   transports: /ip4/<loopback>/tcp/P[/ws]), then add_known_address operations
+   (Litep2p::add_known_address). Litep2p::new registers the listen addresses of the transports
+   first and adds the configured known addresses afterwards; the first observation is made when
+   new() returns:
+   trace := 2 listen-set store(peer 0) .. store(peer 7) bad  then one add record per later operation. *)
 From Coq Require Import List NArith ZArith Bool.
 From V.common Require Import Wire.
-From V.C10 Require Import Model.
+From V.C10 Require Import Model IpClass.
 Import ListNotations.
 Open Scope N_scope.
 
@@ -41,6 +64,26 @@ Definition class_of (x : N) : option ipclass :=
   match x with 0 => Some Unspec | 1 => Some Loop | 2 => Some Priv | 3 => Some Glob | _ => None end.
 Definition class_code (c : ipclass) : N :=
   match c with Unspec => 0 | Loop => 1 | Priv => 2 | Glob => 3 end.
+
+(* concrete addresses: the identifier of the component is RAW + the address (IPv4) / RAW + the
+   compact code (IPv6); identifiers below RAW belong to the mapped ranges *)
+Definition RAW : N := 65536.
+Definition raw4_ok (ip : N) : bool :=
+  (ip <? 4294967296) &&
+  negb ((ip =? 0) || ((octet ip 0 =? 127) && (octet ip 1 =? 1)) ||
+        ((octet ip 0 =? 10) && (octet ip 1 =? 7)) || ((octet ip 0 =? 8) && (octet ip 1 =? 8))).
+Definition raw6_s0 (arg : N) : N := arg / 34359738368.               (* 2^35 *)
+Definition raw6_s1 (arg : N) : N := (arg / 524288) mod 65536.        (* 2^19 *)
+Definition raw6_pos (arg : N) : N := (arg / 65536) mod 8.
+Definition raw6_val (arg : N) : N := arg mod 65536.
+Definition raw6_ip (arg : N) : N :=
+  raw6_s0 arg * 2 ^ 112 + raw6_s1 arg * 2 ^ 96 + raw6_val arg * 2 ^ (16 * (7 - raw6_pos arg)).
+Definition raw6_ok (arg : N) : bool :=
+  (arg <? 2251799813685248) &&                                        (* 2^51 *)
+  (if raw6_val arg =? 0 then raw6_pos arg =? 0 else 2 <=? raw6_pos arg) &&
+  negb ((raw6_ip arg =? 0) || (raw6_ip arg =? 1) ||
+        ((raw6_s0 arg =? 64768) && (raw6_pos arg =? 6) && (raw6_val arg =? 7)) ||
+        ((raw6_s0 arg =? 8193) && (raw6_s1 arg =? 18528))).
 
 (* canonical components only: the harness maps them injectively to real protocols *)
 Definition dec_comp (tag arg : N) : option comp :=
@@ -66,13 +109,15 @@ Definition dec_comp (tag arg : N) : option comp :=
   | 9 => if arg =? 0 then Some QuicV1 else None
   | 10 => if arg <? NPEERS then Some (P2p arg) else None
   | 11 => if arg <? NOTHER then Some (Other arg) else None
+  | 12 => if raw4_ok arg then Some (Ip4 (classify4 arg) (RAW + arg)) else None
+  | 13 => if raw6_ok arg then Some (Ip6 (classify6 (raw6_ip arg)) (RAW + arg)) else None
   | _ => None
   end.
 
 Definition enc_comp (x : comp) : list N :=
   match x with
-  | Ip4 c i => [0; class_code c * 65536 + i]
-  | Ip6 c i => [1; class_code c * 65536 + i]
+  | Ip4 c i => if i <? RAW then [0; class_code c * 65536 + i] else [12; i - RAW]
+  | Ip6 c i => if i <? RAW then [1; class_code c * 65536 + i] else [13; i - RAW]
   | Dns i => [2; i]
   | Dns4 i => [3; i]
   | Dns6 i => [4; i]
@@ -91,6 +136,10 @@ Definition p_comp : parser comp :=
 
 Definition p_maddr : parser maddr :=
   plistb (N.of_nat MAXCOMPS + 1) p_comp.
+
+(* in traces: one component more (a peer id appended to an address of full length) *)
+Definition p_maddr_t : parser maddr :=
+  plistb (N.of_nat MAXCOMPS + 2) p_comp.
 
 Definition enc_maddr (a : maddr) : list N := enc_list enc_comp a.
 
@@ -127,10 +176,13 @@ Definition p_op : parser op :=
   | 6 => let* n := pN in if n <? 9 then pret (OHold (N.to_nat n)) else pfail
   | 7 => let* p := p_peer in let* oc := pN in
          let* t := plistb 1000 p_maddr in let* w := plistb 1000 p_maddr in
-         if oc <? 1000 then pret (ODial p (N.to_nat oc) [] t w) else pfail
+         if oc <? 1000 then pret (ODial p (N.to_nat oc) [] t w []) else pfail
   | 9 => let* p := p_peer in let* oc := pN in let* es := plistb 1000 p_err in
          let* t := plistb 1000 p_maddr in let* w := plistb 1000 p_maddr in
-         if oc <? 1000 then pret (ODial p (N.to_nat oc) es t w) else pfail
+         if oc <? 1000 then pret (ODial p (N.to_nat oc) es t w []) else pfail
+  | 14 => let* p := p_peer in let* oc := pN in let* es := plistb 1000 p_err in
+          let* t := plistb 1000 p_maddr in let* w := plistb 1000 p_maddr in let* q := plistb 1000 p_maddr in
+          if oc <? 1000 then pret (ODial p (N.to_nat oc) es t w q) else pfail
   | 8 => let* p := p_peer in let* a := p_maddr in let* sc := pN in let* v := p_victim in
          if sc <? 4294967296 then pret (OInsert p a (dec_score sc) v) else pfail
   | 10 => let* a := p_maddr in let* res := pN in let* vs := plistb 3 p_maddr in
@@ -143,6 +195,10 @@ Definition p_op : parser op :=
           end
   | 11 => let* a := p_maddr in pret (OPublicAdd a)
   | 12 => let* a := p_maddr in pret (OPublicRemove a)
+  | 13 => let* p := p_peer in let* l := plistb 1000 p_maddr in let* o := plistb 1000 p_maddr in
+          let* vs := plistb 1000 p_maddr in
+          pret (OAdd p (ts_prepare p l) o vs)
+  | 15 => let* a := p_maddr in let* vs := plistb 3 p_maddr in pret (ODialAddrRefused a vs)
   | _ => pfail
   end.
 
@@ -152,7 +208,7 @@ Definition p_case : parser (cfg * list op) :=
   let* lp := p_peer in
   let* mo := pN in
   let* ops := plistb 100000 p_op in
-  if fw && negb fq && negb eq && (mo <? 100)
+  if fw && implb eq fq && (mo <? 100)
   then pret (mkCfg fw fq et ew eq lp (match dec_opt mo with Some m => Some (N.to_nat m) | None => None end), ops)
   else pfail.
 
@@ -162,9 +218,9 @@ Definition decode_case (l : list N) : option (cfg * list op) := pall p_case l.
 
 (* a sort key that is injective on canonical addresses; numerically, shorter addresses first *)
 Definition comp_digit (x : comp) : N :=
-  match enc_comp x with [tag; arg] => tag * 1048576 + arg + 1 | _ => 0 end.
+  match enc_comp x with [tag; arg] => tag * 4503599627370496 + arg + 1 | _ => 0 end.   (* 2^52 *)
 Definition maddr_key (a : maddr) : N :=
-  fold_left (fun acc x => acc * 16777216 + comp_digit x) a 0.
+  fold_left (fun acc x => N.shiftl acc 56 + comp_digit x) a 0.                           (* radix 2^56 *)
 
 Definition enc_entry (x : maddr * Z) : list N := enc_maddr (fst x) ++ [enc_score (snd x)].
 Definition dump (s : store) : list N :=
@@ -173,7 +229,9 @@ Definition dump (s : store) : list N :=
 
 Definition enc_host (h : host) : list N :=
   match h with
-  | HIp (v6, c, i) => [if v6 then 1 else 0; class_code c * 65536 + i]
+  | HIp (v6, c, i) =>
+      if i <? RAW then [if v6 then 1 else 0; class_code c * 65536 + i]
+      else [if v6 then 13 else 12; i - RAW]
   | HDns kind i => [match kind with 0 => 2 | 4 => 3 | _ => 4 end; i]
   end.
 Definition enc_parsed (r : option parsed) : list N :=
@@ -190,9 +248,10 @@ Definition op_peer (o : op) : option N :=
   | OAdd p _ _ _ => Some p
   | ODialFailure a _ _ => match last a (Other 0) with P2p p => Some p | _ => None end
   | OEstablished p _ _ _ => Some p
-  | ODial p _ _ _ _ => Some p
+  | ODial p _ _ _ _ _ => Some p
   | OInsert p _ _ _ => Some p
   | ODialAddr a _ _ => match last a (Other 0) with P2p p => Some p | _ => None end
+  | ODialAddrRefused a _ => match last a (Other 0) with P2p p => Some p | _ => None end
   | _ => None
   end.
 
@@ -217,7 +276,9 @@ Definition enc_out (c : cfg) (o : op) (st' : state) (r : out) : list N :=
   | RIns (Some x) => [1; 1; b2n (is_bad x)] ++ d
   | RAddrs None => [3; 9]
   | RAddrs (Some l) => [3; 0] ++ enc_list enc_entry l
-  | RProbe sup rt ptcp pws _ _ => [4; b2n sup; transport_code rt] ++ enc_parsed ptcp ++ enc_parsed pws
+  | RProbe sup rt ptcp pws pquic _ =>
+      [4; b2n sup; transport_code rt] ++ enc_parsed ptcp ++ enc_parsed pws ++
+      (if feat_quic c then enc_parsed pquic else [])
   | RListen => [5] ++ dump_addrs (dedup (listen_set c (lst st')))
   | RHold n => [6; N.of_nat n]
   | RDial DLimit => [7; 1]
@@ -225,7 +286,7 @@ Definition enc_out (c : cfg) (o : op) (st' : state) (r : out) : list N :=
   | RDial DNoAddress => [7; 3]
   | RDial DUnroutable => [7; 8]
   | RDial DBadChoice => [7; 9]
-  | RDial (DTried t w) => [7; 0] ++ enc_list enc_entry t ++ enc_list enc_entry w ++ d
+  | RDial (DTried t w q) => [7; 0] ++ enc_list enc_entry t ++ enc_list enc_entry w ++ enc_list enc_entry q ++ d
   | RDialAddr v bad => [10] ++ verdict_code v ++ [b2n bad] ++ d
   | RPub r =>
       [11; match r with PubAdded true => 0 | PubAdded false => 1 | PubEmpty => 2 | PubDifferent => 3 end]
@@ -241,16 +302,99 @@ Fixpoint run_trace (c : cfg) (st : state) (h : list op) : list N :=
   | o :: t => let '(st1, r) := step c K st o in enc_out c o st1 r ++ run_trace c st1 t
   end.
 
-Definition run_case (l : list N) : list N :=
-  match decode_case l with
-  | Some (c, h) => 1 :: run_trace c init h
+(* ---------- Litep2p-level cases ---------- *)
+
+Definition is_add (o : op) : bool := match o with OAdd _ _ _ _ => true | _ => false end.
+Definition is_listen (o : op) : bool := match o with OListen _ => true | _ => false end.
+
+Fixpoint span_listen (h : list op) : list maddr * list op :=
+  match h with
+  | OListen a :: t => let '(ls, r) := span_listen t in (a :: ls, r)
+  | _ => ([], h)
+  end.
+
+Definition LP_PORTS : N := 10000.
+Definition comp_port_ok (x : comp) : bool :=
+  match x with Tcp p | Udp p => p <? LP_PORTS | _ => true end.
+Definition op_ports_ok (o : op) : bool :=
+  match o with
+  | OAdd _ l _ _ => forallb (forallb comp_port_ok) l
+  | OListen a => forallb comp_port_ok a
+  | _ => true
+  end.
+
+(* a listen address the harness can bind: a loopback IPv4 address, for an enabled transport *)
+Definition lp_listen_ok (c : cfg) (a : maddr) : bool :=
+  match a with
+  | [Ip4 Loop _; Tcp _] => en_tcp c
+  | [Ip4 Loop _; Tcp _; Ws] => en_ws c
+  | _ => false
+  end.
+(* the socket a listen address binds *)
+Definition lp_socket (a : maddr) : N * N :=
+  match a with Ip4 _ i :: Tcp p :: _ => (i, p) | _ => (0, 0) end.
+Fixpoint nodup_pairs (l : list (N * N)) : bool :=
+  match l with
+  | [] => true
+  | (a, b) :: t => negb (existsb (fun y => (fst y =? a) && (snd y =? b)) t) && nodup_pairs t
+  end.
+
+Definition PEERS : list N := [0; 1; 2; 3; 4; 5; 6; 7].
+
+Definition decode_lp (l : list N) : option (cfg * list op * list maddr * list op) :=
+  match l with
+  | nk :: rest =>
+      match decode_case rest with
+      | Some (c, h) =>
+          let nk' := N.to_nat nk in
+          let known := firstn nk' h in
+          let '(ls, ops) := span_listen (skipn nk' h) in
+          if (nk' <=? length h)%nat && forallb is_add known && forallb is_add ops &&
+             forallb op_ports_ok h && forallb (lp_listen_ok c) ls &&
+             nodup_pairs (map lp_socket ls) &&
+             (en_tcp c || en_ws c) && match max_out c with None => true | Some _ => false end
+          then Some (c, known, ls, ops) else None
+      | None => None
+      end
+  | [] => None
+  end.
+
+Definition lp_listened (ls : list maddr) : state := mkState [] ls 0 [].
+
+Fixpoint any_bad (rs : list out) : bool :=
+  match rs with
+  | [] => false
+  | RAdd _ b :: t => b || any_bad t
+  | _ :: t => any_bad t
+  end.
+
+(* Litep2p::new: the transports register their listen addresses, then the configured known
+   addresses are added; afterwards Litep2p::add_known_address *)
+Definition run_lp (l : list N) : list N :=
+  match decode_lp l with
+  | Some (c, known, ls, ops) =>
+      let st1 := lp_listened ls in
+      let '(st2, rs) := run c K st1 known in
+      [2] ++ dump_addrs (dedup (listen_set c ls)) ++
+      flat_map (fun p => dump (get_or_empty p (bk st2))) PEERS ++ [b2n (any_bad rs)] ++
+      run_trace c st2 ops
   | None => [0]
+  end.
+
+Definition run_case (l : list N) : list N :=
+  match l with
+  | 2 :: rest => run_lp rest
+  | _ =>
+      match decode_case l with
+      | Some (c, h) => 1 :: run_trace c init h
+      | None => [0]
+      end
   end.
 
 (* ---------- decoding a trace ---------- *)
 
 Definition p_entry : parser (maddr * Z) :=
-  let* a := p_maddr in let* z := pN in pret (a, dec_score z).
+  let* a := p_maddr_t in let* z := pN in pret (a, dec_score z).
 Definition p_store : parser store := plistb 100000 p_entry.
 
 Definition p_host : parser host :=
@@ -261,6 +405,8 @@ Definition p_host : parser host :=
   | 2 => pret (HDns 0 arg)
   | 3 => pret (HDns 4 arg)
   | 4 => pret (HDns 6 arg)
+  | 12 => pret (HIp (false, classify4 arg, RAW + arg))
+  | 13 => pret (HIp (true, classify6 (raw6_ip arg), RAW + arg))
   | _ => pfail
   end.
 Definition p_parsed : parser (option parsed) :=
@@ -273,16 +419,16 @@ Inductive obs :=
 | BIns0 (s : option store)
 | BIns (s : store)
 | BAddrs (l : option store)
-| BProbe (sup : bool) (rt : N) (ptcp pws : option parsed)
+| BProbe (sup : bool) (rt : N) (ptcp pws pquic : option parsed)
 | BListen (l : list maddr)
 | BHold (n : nat)
 | BDialCode (code : N)
-| BDialTried (t w s : store)
+| BDialTried (t w q s : store)
 | BDialAddr (code : N) (s : option store)
 | BPub (code : N) (l : list maddr)
 | BPubRemoved (b : bool) (l : list maddr).
 
-Definition p_obs : parser obs :=
+Definition p_obs (c : cfg) : parser obs :=
   let* tag := pN in
   match tag with
   | 0 => let* n := pN in let* _ := pN in let* s := p_store in pret (BAdd n s)
@@ -291,26 +437,28 @@ Definition p_obs : parser obs :=
   | 3 => let* f := pN in
          if f =? 0 then let* l := p_store in pret (BAddrs (Some l)) else pret (BAddrs None)
   | 4 => let* sup := pBool in let* rt := pN in let* a := p_parsed in let* b := p_parsed in
-         pret (BProbe sup rt a b)
-  | 5 => let* l := plistb 100000 p_maddr in pret (BListen l)
+         let* q := (if feat_quic c then p_parsed else pret None) in
+         pret (BProbe sup rt a b q)
+  | 5 => let* l := plistb 100000 p_maddr_t in pret (BListen l)
   | 6 => let* n := pN in if n <? 1000 then pret (BHold (N.to_nat n)) else pfail
   | 7 => let* code := pN in
          if code =? 0 then
-           let* t := p_store in let* w := p_store in let* s := p_store in pret (BDialTried t w s)
+           let* t := p_store in let* w := p_store in let* q := p_store in let* s := p_store in
+           pret (BDialTried t w q s)
          else pret (BDialCode code)
   | 10 => let* code := pN in
           let* _ := (if code =? 0 then (let* _ := pN in pN) else pret 0) in
           let* _ := pN in
           pret (BDialAddr code None)
-  | 11 => let* code := pN in let* l := plistb 100000 p_maddr in pret (BPub code l)
-  | 12 => let* b := pBool in let* l := plistb 100000 p_maddr in pret (BPubRemoved b l)
+  | 11 => let* code := pN in let* l := plistb 100000 p_maddr_t in pret (BPub code l)
+  | 12 => let* b := pBool in let* l := plistb 100000 p_maddr_t in pret (BPubRemoved b l)
   | _ => pfail
   end.
 
 (* the dump that follows a dial_address record when the address ends in /p2p, and an inbound
    connection's record *)
-Definition p_obs_for (o : op) : parser obs :=
-  let* ob := p_obs in
+Definition p_obs_for (c : cfg) (o : op) : parser obs :=
+  let* ob := p_obs c in
   match ob, op_peer o with
   | BDialAddr code _, Some _ => let* s := p_store in pret (BDialAddr code (Some s))
   | BIns0 _, Some _ => let* s := p_store in pret (BIns0 (Some s))
@@ -411,13 +559,13 @@ Definition outcome_ok (k : scorecfg) (s s' : store) (won : option maddr) (failed
              end) s.
 
 (* dial_address: attributable and dialable by an enabled transport (the host may be unspecified),
-   not literally a listen address *)
+   not a listen address of the node (literally, or with the /p2p suffix taken off) *)
 Definition parsed_weak (r : option parsed) (peer : N) : bool :=
   match r with Some (_, _, Some q) => q =? peer | _ => false end.
 Definition dial_ok_weak (c : cfg) (ls : list maddr) (peer : N) (a : maddr) : bool :=
   names peer a &&
   existsb (fun t => enabled c t && parsed_weak (parse t a) peer) [TTcp; TWs; TQuic] &&
-  negb (existsb (maddr_eqb a) (listen_set c ls)).
+  negb (own_listen c ls a).
 
 Definition set_eqb (l1 l2 : list maddr) : bool :=
   nodup_addrs l1 && nodup_addrs l2 &&
@@ -463,7 +611,7 @@ Definition step_ok (c : cfg) (k : scorecfg) (st : ostate) (o : op) (ob : obs) : 
   | ODialAddrs peer limit obsin, BAddrs (Some l) =>
       if list_eqb maddr_eqb (map fst l) obsin && addresses_ok limit (get_or_empty peer b) l
       then Some st else None
-  | OProbe a, BProbe sup rt ptcp pws =>
+  | OProbe a, BProbe sup rt ptcp pws pquic =>
       (* accepted by supported_transport => the transport it is routed to is enabled and its own
          parser accepts it, with the peer of the trailing /p2p and a specified host *)
       if sup then
@@ -472,6 +620,7 @@ Definition step_ok (c : cfg) (k : scorecfg) (st : ostate) (o : op) (ob : obs) : 
             match rt with
             | 0 => if enabled c TTcp && parsed_ok ptcp q then Some st else None
             | 1 => if enabled c TWs && parsed_ok pws q then Some st else None
+            | 2 => if enabled c TQuic && parsed_ok pquic q then Some st else None
             | _ => None
             end
         | _ => None
@@ -485,7 +634,7 @@ Definition step_ok (c : cfg) (k : scorecfg) (st : ostate) (o : op) (ob : obs) : 
       (* the outbound limit is never exceeded *)
       if match max_out c with Some m => (n <=? m)%nat | None => true end
       then Some (mkO b (o_lst st) n (o_pubs st)) else None
-  | ODial peer _ _ _ _, BDialCode code =>
+  | ODial peer _ _ _ _ _, BDialCode code =>
       let s := get_or_empty peer b in
       match code with
       | 1 => (* refused for the limit only when there is no free outbound capacity *)
@@ -499,24 +648,32 @@ Definition step_ok (c : cfg) (k : scorecfg) (st : ostate) (o : op) (ob : obs) : 
              then Some st else None
       | _ => None
       end
-  | ODial peer outcome _ tcp ws, BDialTried t w s' =>
+  | ODial peer outcome _ tcp ws qu, BDialTried t w q s' =>
       let s := get_or_empty peer b in
       match free_capacity c (mkState b (o_lst st) (o_held st) (o_pubs st)) (length s) with
       | None => None
       | Some limit =>
-          let n := (length tcp + length ws)%nat in
+          let n := (length tcp + length ws + length qu)%nat in
           let j := match outcome with O => O | S j0 => (j0 mod n)%nat end in
           let '(won, failed) :=
             match outcome with
-            | O => (None, tcp ++ ws)
+            | O => (None, tcp ++ ws ++ qu)
             | S _ => if (j <? length tcp)%nat then (nth_error tcp j, firstn j tcp)
-                     else (nth_error ws (j - length tcp), firstn (j - length tcp) ws)
+                     else if (j <? length tcp + length ws)%nat
+                          then (nth_error ws (j - length tcp), firstn (j - length tcp) ws)
+                          else (nth_error qu (j - length tcp - length ws),
+                                firstn (j - length tcp - length ws) qu)
             end in
           if negb (peer =? local_peer c) &&
              list_eqb maddr_eqb (map fst t) tcp && list_eqb maddr_eqb (map fst w) ws &&
+             list_eqb maddr_eqb (map fst q) qu &&
+             (* every address is handed to the enabled transport it is routed to *)
+             forallb (fun a => enabled c TTcp && match route c a with TTcp => true | _ => false end) tcp &&
+             forallb (fun a => enabled c TWs && match route c a with TWs => true | _ => false end) ws &&
+             forallb (fun a => enabled c TQuic && match route c a with TQuic => true | _ => false end) qu &&
              (* non-increasing score order, limited by the free outbound capacity *)
-             addresses_ok limit s (merge_desc t w) &&
-             nonincreasing (map snd t) && nonincreasing (map snd w) &&
+             addresses_ok limit s (merge_desc (merge_desc t w) q) &&
+             nonincreasing (map snd t) && nonincreasing (map snd w) && nonincreasing (map snd q) &&
              store_ok k s' && outcome_ok k s s' won failed
           then upd (put peer s' b) else None
       end
@@ -538,6 +695,24 @@ Definition step_ok (c : cfg) (k : scorecfg) (st : ostate) (o : op) (ob : obs) : 
                | Some _ => true | None => false end &&
                (mem a s || negb (mem a s') || dial_ok_weak c (o_lst st) q a) &&
                rescore_ok k a okz oknew s s'
+            then upd (put q s' b) else None
+          else if same_store s s' && store_ok k s' then upd (put q s' b) else None
+      | P2p _, None => None
+      | _, None => if code =? 0 then None else Some st
+      | _, Some _ => None
+      end
+  | ODialAddrRefused a _, BDialAddr code so =>
+      match last a (Other 0), so with
+      | P2p q, Some s' =>
+          let s := get_or_empty q b in
+          if code =? 0 then
+            (* the dial was not started: a stored address is untouched; what is newly remembered
+               passed dial_address's check and is untested *)
+            if match free_capacity c (mkState b (o_lst st) (o_held st) (o_pubs st)) 0 with
+               | Some _ => true | None => false end &&
+               (if mem a s then same_store s s' && store_ok k s'
+                else (negb (mem a s') || dial_ok_weak c (o_lst st) q a) &&
+                     rescore_ok k a (fun _ => false) (fun z => Z.eqb z (new_score_of k a 0)) s s')
             then upd (put q s' b) else None
           else if same_store s s' && store_ok k s' then upd (put q s' b) else None
       | P2p _, None => None
@@ -566,7 +741,7 @@ Fixpoint steps_ok (c : cfg) (k : scorecfg) (st : ostate) (h : list op) : parser 
   match h with
   | [] => pret true
   | o :: t =>
-      let* ob := p_obs_for o in
+      let* ob := p_obs_for c o in
       match step_ok c k st o ob with
       | Some st' => steps_ok c k st' t
       | None => pret false
@@ -575,7 +750,7 @@ Fixpoint steps_ok (c : cfg) (k : scorecfg) (st : ostate) (h : list op) : parser 
 
 (* prop_ok case trace: the trace (as printed by the implementation or by run_case) satisfies
    the property on this case. After a failed step the rest of the trace is not looked at. *)
-Definition prop_ok (case trace : list N) : bool :=
+Definition prop_std (case trace : list N) : bool :=
   match decode_case case, trace with
   | Some (c, h), 1 :: body =>
       match steps_ok c K (mkO [] [] 0 []) h body with
@@ -584,6 +759,48 @@ Definition prop_ok (case trace : list N) : bool :=
       end
   | None, [0] => true
   | _, _ => false
+  end.
+
+(* Litep2p-level: when new() returns, the listen set is the configured one and every remembered
+   address was offered for that peer in the configuration, names it, is dialable by an enabled
+   transport and is not local with respect to the node's listen addresses; the bound holds.
+   Later additions are judged like add_known_address operations. *)
+Definition offered_for (p : N) (known : list op) : list maddr :=
+  flat_map (fun o => match o with OAdd q l _ _ => if q =? p then l else [] | _ => [] end) known.
+
+Definition config_store_ok (c : cfg) (k : scorecfg) (ls : list maddr) (known : list op) (p : N) (s : store) : bool :=
+  store_ok k s &&
+  forallb (fun x => existsb (fun a => maddr_eqb (with_peer p a) (fst x)) (offered_for p known) &&
+                    dial_ok c p (fst x) && negb (is_local c ls (fst x))) s.
+
+Fixpoint p_stores (ps : list N) : parser (list (N * store)) :=
+  match ps with
+  | [] => pret []
+  | p :: t => let* s := p_store in let* r := p_stores t in pret ((p, s) :: r)
+  end.
+
+Definition prop_lp (case trace : list N) : bool :=
+  match decode_lp case, trace with
+  | Some (c, known, ls, ops), 2 :: body =>
+      match (let* l := plistb 100000 p_maddr_t in let* b := p_stores PEERS in let* _ := pN in
+             pret (l, b)) body with
+      | Some ((l, b), rest) =>
+          set_eqb l (dedup (listen_set c ls)) &&
+          forallb (fun ps => config_store_ok c K ls known (fst ps) (snd ps)) b &&
+          match steps_ok c K (mkO b ls 0 []) ops rest with
+          | Some (ok, rest') => if ok then match rest' with [] => true | _ => false end else false
+          | None => false
+          end
+      | None => false
+      end
+  | None, [0] => true
+  | _, _ => false
+  end.
+
+Definition prop_ok (case trace : list N) : bool :=
+  match case with
+  | 2 :: rest => prop_lp rest trace
+  | _ => prop_std case trace
   end.
 
 (* No known-finding classes for C10: every failing case is a violation. *)
